@@ -12,6 +12,9 @@ number of concurrently submitted tasks (Model/C19PoolQueue.lean). Same namespace
                                       the full channel, while the task waited in the channel or while a
                                       worker held it; whether the pool was stopped; for every channel
                                       capacity ≥ 1 and every number of consumers ≥ 1.
+  pool_queue_progress_terminates /    the pool's own steps run only boundedly often from any reachable state and
+  pool_queue_reaches_stuck            some run of them reaches a state where nothing can move (maximal runs exist).
+  pool_queue_refines_launch           each task at rest resolves to exactly one `Run` of the stage-tree model.
   Neg.queued_task_lost_if_closure_checks_ctx
                                       the closure returning early on a done context (seeded c19-25's shape):
                                       a task accepted by the pool and cancelled while queued never completes
